@@ -18,6 +18,7 @@ package builder
 //@   requires b.pkg != nil
 //@   ensures {C05,C01,C06} r == externalPkg(b, pkg)
 //@ func (*assignmentBuilder).isStructFieldAccessible(b, structNode, leafName) (r)
+//@   reveal wfNode, exprType, returnsError, parentOf, objNameOf
 //@   requires b.pkg != nil && bmodel.wfNode(structNode)
 //@   ensures {C05,C01,C04} r == accessible(b, bmodel.exprType(structNode), leafName)
 //@
@@ -30,6 +31,7 @@ package builder
 //@          box(bmodel.TypecastEntry{inner: n, typ: t, expr: bmodel.castExpr(pkgScope(b.pkg.Types), b.imports, t)}), nil))))
 //@
 //@ func (*assignmentBuilder).castNode(b, lhsType, rhs) (c, ok)
+//@   reveal wfNode, exprType, returnsError, parentOf, objNameOf
 //@   requires wfB(b) && lhsType != nil && bmodel.wfNode(rhs)
 //@   use T10(), T6(lhsType)
 //@   effects log
@@ -51,6 +53,7 @@ package builder
 //@          nil)))
 //@
 //@ func (*assignmentBuilder).sliceToSlice(b, lhs, rhs) (a, err)
+//@   reveal wfNode, exprType, returnsError, parentOf, objNameOf
 //@   requires bmodel.wfNode(lhs) && bmodel.wfNode(rhs)
 //@   ensures {C16,C01} err == nil && a == sliceChoice(b, lhs, rhs)
 //@   ensures {C16,C01} is(a, gmodel.SliceAssignment) ==> identicalT(elemT(bmodel.exprType(rhs)), elemT(bmodel.exprType(lhs)))
@@ -70,6 +73,7 @@ package builder
 //@          false))
 //@
 //@ func (*assignmentBuilder).resolveExpr(b, matcher, root) (node, ok)
+//@   reveal wfNode, exprType, returnsError, parentOf, objNameOf
 //@   requires b.pkg != nil && option.idInv(matcher) && bmodel.wfNode(root) && !bmodel.returnsError(root)
 //@   ensures {C06,C01,C02} ok ==> bmodel.wfNode(node) && visibleChain(b, node, root)
 //@   ensures {C06} !ok ==> true
@@ -80,6 +84,7 @@ package builder
 //@ spec argIndex(m *option.IdentMatcher) int = parseInt(substr(m.paths[0], 1, len(m.paths[0])), 10, 64) - 1
 //@
 //@ func (*assignmentBuilder).resolveTemplatedExpr(b, matcher, additionalArgs) (node, ok)
+//@   reveal wfNode, exprType, returnsError, parentOf, objNameOf
 //@   requires b.pkg != nil && option.idInv(matcher) && len(matcher.paths[0]) >= 1
 //@   requires forall(i, 0, len(additionalArgs), bmodel.wfNode(additionalArgs[i]) && !bmodel.returnsError(additionalArgs[i]))
 //@   ensures {C06,C01,C02} ok ==> 0 <= argIndex(matcher) && argIndex(matcher) < len(additionalArgs)
@@ -106,6 +111,7 @@ package builder
 //@   loop 1 invariant bmodel.wfNode(root) && plainPath(root)
 //@
 //@ func (*assignmentBuilder).createWithConverter(b, lhs, rhs, converter) (a, err)
+//@   reveal wfNode, exprType, returnsError, parentOf, objNameOf
 //@   requires wfB(b) && bmodel.wfNode(lhs) && bmodel.wfNode(rhs) && plainPath(rhs) && convReady(converter)
 //@   use T10()
 //@   effects log
@@ -118,6 +124,7 @@ package builder
 //@   loop 1 invariant bmodel.wfNode(root) && plainPath(root)
 //@
 //@ func (*assignmentBuilder).createWithMapper(b, lhs, rhs, mapper) (a, err)
+//@   reveal wfNode, exprType, returnsError, parentOf, objNameOf
 //@   requires wfB(b) && bmodel.wfNode(lhs) && bmodel.wfNode(rhs) && plainPath(rhs) && option.nmInv(mapper)
 //@   use T10()
 //@   effects log
@@ -130,6 +137,7 @@ package builder
 //@   atcall resolveTemplatedExpr: {C06,C02} len(args) == 1 + len(additionalArgs) && args[0] == rhs && forall(i, 0, len(additionalArgs), args[i+1] == additionalArgs[i])
 //@
 //@ func (*assignmentBuilder).createWithTemplatedMapper(b, lhs, rhs, additionalArgs, mapper) (a, err)
+//@   reveal wfNode, exprType, returnsError, parentOf, objNameOf
 //@   requires wfB(b) && bmodel.wfNode(lhs) && bmodel.wfNode(rhs) && plainPath(rhs) && option.nmInv(mapper) && len(mapper.src.paths[0]) >= 1
 //@   requires forall(i, 0, len(additionalArgs), bmodel.wfNode(additionalArgs[i]) && !bmodel.returnsError(additionalArgs[i]))
 //@   use T10()
@@ -150,11 +158,12 @@ package builder
 //@ spec argsReady(args []bmodel.Node) bool = forall(i, 0, len(args), bmodel.wfNode(args[i]) && !bmodel.returnsError(args[i]))
 //@
 //@ func (*assignmentBuilder).matchStructFieldAndStruct(b, lhs, rhs, additionalArgs) (a, err)
+//@   reveal wfNode, exprType, returnsError, parentOf, objNameOf
 //@   requires wfB(b) && convsReady(b.opts) && templReady(b.opts) && bmodel.wfNode(lhs) && bmodel.wfNode(rhs) && plainPath(rhs) && argsReady(additionalArgs)
 //@   effects log
 //@   assigns all(option.PatternMatcher.re), all(option.PatternMatcher.exactCase)
 //@   ensures {C06,C05} option.shouldSkip(old(b.opts), path(lhs)) ==> a == box(gmodel.SkipField{LHS: bmodel.assignExpr(lhs)}) && err == nil
-//@   ensures option.skipInv(b.opts)
+//@   ensures {C05,C06} err == nil && option.skipInv(b.opts) && okResult(a, bmodel.assignExpr(lhs))
 //@   atcall createWithConverter: {C06} !option.shouldSkip(b.opts, path(lhs)) && converter.m.dst.pattern == path(lhs) && noConv(b.opts, path(lhs), $k)
 //@   atcall createWithMapper: {C06} !option.shouldSkip(b.opts, path(lhs)) && noConv(b.opts, path(lhs), len(b.opts.Converters)) && mapper.dst.pattern == path(lhs) && noMap(b.opts, path(lhs), $k)
 //@   atcall createWithTemplatedMapper: {C06} !option.shouldSkip(b.opts, path(lhs)) && noConv(b.opts, path(lhs), len(b.opts.Converters)) && noMap(b.opts, path(lhs), len(b.opts.NameMapper)) && mapper.dst.pattern == path(lhs) && noTMap(b.opts, path(lhs), $k)
@@ -164,3 +173,52 @@ package builder
 //@   loop 2 invariant $k <= len(b.opts.NameMapper) && noMap(b.opts, path(lhs), $k)
 //@   loop 3 invariant $k <= len(b.opts.TemplatedNameMapper) && noTMap(b.opts, path(lhs), $k)
 //@   loop 4 invariant $k <= len(b.opts.Literals) && noLit(b.opts, path(lhs), $k)
+
+// ---- default matching (C04) and coverage (C05) ---------------------------------------------------------------------------------
+
+//@ spec cmpName(o option.Options, a string, b string) bool = cond(o.ExactCase, a == b, equalFold(a, b))
+//@ spec readyB(b *assignmentBuilder) bool = wfB(b) && convsReady(b.opts) && templReady(b.opts)
+//@ spec okResult(a gmodel.Assignment, l string) bool = a == nil || gmodel.covers(a, l)
+//@
+//@ func (*assignmentBuilder).structFieldAndStructGettersAndFields$1(rhs) (done)
+//@   inline
+//@   atcall sliceToSlice: {C04,C16} accessible(b, bmodel.exprType(rhsStruct), bmodel.objNameOf(rhs)) && cmpName(opts, bmodel.objNameOf(lhs), bmodel.objNameOf(rhs))
+//@   atcall castNode: {C04} accessible(b, bmodel.exprType(rhsStruct), bmodel.objNameOf(rhs)) && cmpName(opts, bmodel.objNameOf(lhs), bmodel.objNameOf(rhs))
+//@   atcall structToStruct: {C04,C02} accessible(b, bmodel.exprType(rhsStruct), bmodel.objNameOf(rhs)) && cmpName(opts, bmodel.objNameOf(lhs), bmodel.objNameOf(rhs))
+//@   atcall structToStruct: {C02} isStructT(bmodel.exprType(lhs)) && isStructT(bmodel.exprType(rhs))
+//@
+//@ func (*assignmentBuilder).structFieldAndStructGettersAndFields(b, lhs, rhsStruct) (a, err)
+//@   use T0(derefT(bmodel.exprType(rhsStruct))), T0(underlying(derefT(bmodel.exprType(rhsStruct))))
+//@   reveal wfNode, exprType, returnsError, objNameOf, assignExpr
+//@   requires readyB(b) && bmodel.wfNode(lhs) && bmodel.wfNode(rhsStruct) && plainPath(rhsStruct)
+//@   use T10()
+//@   effects log
+//@   assigns all(option.PatternMatcher.re), all(option.PatternMatcher.exactCase)
+//@   ensures {C04,C05} err == nil && okResult(a, bmodel.assignExpr(lhs)) && option.skipInv(b.opts)
+//@   ensures {C04} b.opts.Rule == gmodel.MatchRuleNone ==> isNoMatch(a, bmodel.assignExpr(lhs))
+//@   ensures {C04} !b.opts.Getter && b.opts.Rule != gmodel.MatchRuleName ==> isNoMatch(a, bmodel.assignExpr(lhs))
+//@   atcall IterateStructMethods: {C04} opts.Getter && opts.Rule != gmodel.MatchRuleNone
+//@   atcall IterateStructFields: {C04} opts.Rule == gmodel.MatchRuleName && *a == nil && *err == nil
+//@   iter IterateStructMethods invariant *err == nil && okResult(*a, *lhsExpr) && (*a != nil ==> $done) && option.skipInv(b.opts) && *lhsExpr == bmodel.assignExpr(lhs)
+//@   iter IterateStructFields invariant *err == nil && okResult(*a, *lhsExpr) && (*a != nil ==> $done) && option.skipInv(b.opts) && *lhsExpr == bmodel.assignExpr(lhs)
+//@
+//@ spec fieldNode(lhs bmodel.Node, i int) bmodel.Node = box(bmodel.StructFieldNode{parent: lhs, field: fieldAt(structOf(bmodel.exprType(lhs)), i)})
+//@ spec accField(b *assignmentBuilder, lhs bmodel.Node, i int) bool = accessible(b, bmodel.exprType(lhs), nameOf(fieldAt(structOf(bmodel.exprType(lhs)), i)))
+//@ spec accBefore(b *assignmentBuilder, lhs bmodel.Node, k int) int = cond(k <= 0, 0, accBefore(b, lhs, k-1) + cond(accField(b, lhs, k-1), 1, 0))
+//@
+//@ func (*assignmentBuilder).structToStruct(b, lhsStruct, rhsStruct, additionalArgs) (r, err)
+//@   use T0(derefT(bmodel.exprType(lhsStruct))), T0(underlying(derefT(bmodel.exprType(lhsStruct))))
+//@   reveal wfNode, exprType, objNameOf, assignExpr
+//@   requires readyB(b) && bmodel.wfNode(lhsStruct) && bmodel.wfNode(rhsStruct) && plainPath(rhsStruct) && argsReady(additionalArgs)
+//@   effects log
+//@   assigns all(option.PatternMatcher.re), all(option.PatternMatcher.exactCase)
+//@   ensures {C05} err == nil && option.skipInv(b.opts) && (r == nil || fresh(r))
+//@   ensures {C05} len(r) <= accBefore(b, lhsStruct, nFieldsOf(bmodel.exprType(lhsStruct)))
+//@   ensures {C05,C02} forall(j, 0, len(r), gmodel.under(r[j], bmodel.assignExpr(lhsStruct) + "."))
+//@   iter IterateStructFields invariant *err == nil && option.skipInv(b.opts) && (*assignments == nil || fresh(*assignments)) && sameOld(*assignments)
+//@   iter IterateStructFields invariant !$done && len(*assignments) <= accBefore(b, lhsStruct, $k)
+//@   iter IterateStructFields invariant forall(j, 0, len(*assignments), gmodel.under((*assignments)[j], bmodel.assignExpr(lhsStruct) + "."))
+//@
+//@ func (*assignmentBuilder).structToStruct$1(lhsField) (done)
+//@   inline
+//@   atcall matchStructFieldAndStruct: {C05,C01} accessible(b, bmodel.exprType(lhsStruct), bmodel.objNameOf(lhsField))
